@@ -17,7 +17,8 @@ FUNCS = ['t2grids.t2grid.rectgeo', 't2grids.t2grid.rectgeo.block_spacings', 't2g
 def p_rectgeo(e, arg):
     nx, ny, nz, atm, convention, nsurf = arg[:6]
     onelayer = len(arg) > 6 and arg[6] == 'onelayer'
-    tag = '[%dx%dx%d,atm%d,conv%d,%d surfaces%s]' % (tuple(arg[:6]) + (',onelayer' if onelayer else '',))
+    rot = arg[6] if len(arg) > 6 and isinstance(arg[6], int) else 0          # the original rotated clockwise by a multiple of 90 degrees
+    tag = '[%dx%dx%d,atm%d,conv%d,%d surfaces%s]' % (tuple(arg[:6]) + (',onelayer' if onelayer else (',rotated %d' % rot if rot else ''),))
     def prog(e):
         geo, S = build_rect(e, nx, ny, nz, atm, 0, nsurf, origin=[e.sym_real('ox'), e.sym_real('oy'), e.sym_real('oz')])
         snap = z3.RealVal('1/10')
@@ -34,6 +35,10 @@ def p_rectgeo(e, arg):
             e.assume(d >= snap)
         for d in S['dx'] + S['dy'] + S['dz']:
             e.assume(d <= 1000000)              # every block is an active block: volume below atmos_volume = 1e25
+        if rot:
+            # sin / cos are exact at quarter turns; the permeability directions turn with the geometry
+            e.call(e.getattr(geo, 'rotate'), [rot, NVec([e.sym_real('rcx'), e.sym_real('rcy')])])
+            geo.fields['permeability_angle'] = -rot
         e.assume(geo.fields['atmosphere_volume'] >= 10 ** 25)      # atmosphere blocks are not active blocks (volume >= atmos_volume)
         tg = e.load_module('t2grids').globals
         grid = e.call(e.getattr(e.call(tg['t2grid'], []), 'fromgeo'), [geo])
@@ -48,17 +53,24 @@ def p_rectgeo(e, arg):
         okz = len(lays) == nz + 1 and _valid(e, to_real(lays[0].fields['bottom']) == to_real(S['org'][2])) and all(_valid(e, to_real(l.fields['top']) - to_real(l.fields['bottom']) == S['dz'][k]) for k, l in enumerate(lays[1:]))
         e.prove(okz, 'post:same_layer_thicknesses' + tag)
         cols2 = f2['columnlist']
+        cols1 = geo.fields['columnlist']
         okxy = len(cols2) == nx * ny
         if okxy:
             for ci, c in enumerate(cols2):
                 i, j = ci % nx, ci // nx
-                xs = [to_real(n.fields['pos'].items[0]) for n in c.fields['node']]; ys = [to_real(n.fields['pos'].items[1]) for n in c.fields['node']]
-                x0 = S['org'][0] + sum(S['dx'][:i]); y0 = S['org'][1] + sum(S['dy'][:j])
-                okxy = okxy and _valid(e, z3.And(*[z3.Or(x == x0, x == x0 + S['dx'][i]) for x in xs] + [z3.Or(y == y0, y == y0 + S['dy'][j]) for y in ys] +
-                                                 [to_real(c.fields['area']) == S['dx'][i] * S['dy'][j]]))
+                p2 = [(to_real(n.fields['pos'].items[0]), to_real(n.fields['pos'].items[1])) for n in c.fields['node']]
+                p1 = [(to_real(n.fields['pos'].items[0]), to_real(n.fields['pos'].items[1])) for n in cols1[ci].fields['node']]
+                # the same corner points as the original column (which the constructor put at the rectangle of its spacings)
+                okxy = okxy and len(p1) == len(p2) and _valid(e, z3.And(*[z3.Or(*[z3.And(x == u, y == v) for (u, v) in p1]) for (x, y) in p2] +
+                                                                       [z3.Or(*[z3.And(x == u, y == v) for (x, y) in p2]) for (u, v) in p1] +
+                                                                       [to_real(c.fields['area']) == S['dx'][i] * S['dy'][j]]))
+                if not rot:
+                    x0 = S['org'][0] + sum(S['dx'][:i]); y0 = S['org'][1] + sum(S['dy'][:j])
+                    okxy = okxy and _valid(e, z3.And(*[z3.And(z3.Or(x == x0, x == x0 + S['dx'][i]), z3.Or(y == y0, y == y0 + S['dy'][j])) for (x, y) in p2]))
         e.prove(okxy, 'post:same_horizontal_spacings_and_position' + tag)
         pa = f2['permeability_angle']
-        e.prove(pa == 0 or _valid(e, to_real(pa) == 0), 'post:same_orientation_angle_zero' + tag)
+        want = -rot
+        e.prove(any(pa == want + 360 * k or (not isinstance(pa, (int, float)) and _valid(e, to_real(pa) == want + 360 * k)) for k in (-1, 0, 1)), 'post:same_orientation' + tag)
         oks = okxy and all(_valid(e, to_real(e.getattr(c, 'surface')) == to_real(S['surf'][ci])) for ci, c in enumerate(cols2))
         e.prove(oks, 'post:same_column_surface_elevations' + tag)
         e.prove(f2['_atmosphere_type'] == atm and f2['_convention'] == convention, 'post:requested_atmosphere_arrangement_and_convention' + tag)
@@ -101,7 +113,7 @@ def p_rectgeo(e, arg):
 
 
 RECTS = [(2, 1, 2, 2, 0, 0), (2, 1, 2, 0, 0, 0), (2, 2, 2, 1, 0, 0), (2, 1, 3, 0, 0, 1), (3, 2, 2, 2, 1, 0), (2, 2, 3, 1, 2, 1), (2, 1, 3, 2, 3, 1), (2, 2, 2, 0, 0, 1),
-         (2, 1, 2, 2, 3, 1, 'onelayer')]
+         (2, 1, 2, 2, 3, 1, 'onelayer'), (2, 2, 2, 2, 0, 0, 90), (2, 2, 2, 0, 0, 1, 180), (3, 2, 2, 1, 1, 0, 270)]
 PROGRAMS = [('p_rectgeo', r) for r in RECTS]
 
 
